@@ -52,3 +52,9 @@ claim(
     "Generated modules with every placement (module level, methods, nested classes, static methods, factory closures 1-2 deep, decorated functions/methods) x random histories of activate-by-name / activate-by-reference / deactivate in any order / call / resolve; select(refstring(fn)) must be the very function and streams by reference must equal streams by name, before, during and after probing. Held-on-observed.",
     "One closure per factory; references of decorated functions denote the undecorated def.",
 )
+claim(
+    "C13",
+    "differential monitor: events (value, id(receiver)) of class-form and object-form method selectors vs an identity-based reference over random populations and call sequences",
+    "Seeded random populations (plain / value-equal / unhashable / list and dict subclasses / inheriting / overriding / decorated / property classes, with equal-but-distinct twins) x selectors through class, object, dotted path, decorator and property x random call sequences incl. a namesake module-level function; each selector's stream must be exactly the calls executing that function (class form) or whose receiver IS the object (object form, receiver reported). Held-on-observed.",
+    "Unique call arguments identify calls; properties are selected through the class.",
+)
